@@ -89,6 +89,17 @@ var fragments = []fragSpec{
 		params: []fragParam{{"dkeys", "meta.DeletedKeys", false}, {"dbytes", "meta.DeletedBytes", false},
 			{"keySize", "sl.keySize", false}, {"valueSize", "sl.valueSize", false}},
 		outs: []string{"meta.DeletedKeys", "meta.DeletedBytes"}},
+	{coq: "go_count_rec", pkg: "db", recv: "datalog", fn: "writeRecord",
+		from: "switch rt", to: "switch rt",
+		params: []fragParam{{"rt", "rt", false}, {"puts", "dl.curSeg.meta.PutRecords", false}, {"dels", "dl.curSeg.meta.DeleteRecords", false}},
+		outs:   []string{"dl.curSeg.meta.PutRecords", "dl.curSeg.meta.DeleteRecords"}},
+	{coq: "go_recover_put", pkg: "db", recv: "DB", fn: "recover",
+		from: "meta.PutRecords++", to: "meta.PutRecords++",
+		params: []fragParam{{"puts", "meta.PutRecords", false}}, outs: []string{"meta.PutRecords"}},
+	{coq: "go_recover_del", pkg: "db", recv: "DB", fn: "recover",
+		from: "meta.DeleteRecords++", to: "meta.DeletedBytes +=",
+		params: []fragParam{{"dels", "meta.DeleteRecords", false}, {"dbytes", "meta.DeletedBytes", false}, {"rlen", "len(rec.data)", false}},
+		outs:   []string{"meta.DeleteRecords", "meta.DeletedBytes"}},
 	{coq: "go_del_bytes", pkg: "db", recv: "datalog", fn: "del",
 		from: "dl.curSeg.meta.DeletedBytes +=", to: "dl.curSeg.meta.DeletedBytes +=",
 		params: []fragParam{{"dbytes", "dl.curSeg.meta.DeletedBytes", false}, {"rlen", "len(rec)", false}},
@@ -602,6 +613,58 @@ func (t *ftrans) stmts(list []ast.Stmt) (string, bool) {
 			for k, key := range ks {
 				t.env[key] = names[k]
 			}
+		case *ast.SwitchStmt:
+			// `switch tag { case c1: assigns; case c2: assigns; default: assigns }` without fallthrough
+			if x.Init != nil || x.Tag == nil {
+				t.errf("switch statement outside the subset")
+				continue
+			}
+			var chain ast.Stmt
+			var last *ast.IfStmt
+			var deflt *ast.BlockStmt
+			okSw := true
+			for _, cc := range x.Body.List {
+				cl := cc.(*ast.CaseClause)
+				for _, st := range cl.Body {
+					if br, ok := st.(*ast.BranchStmt); ok && br.Tok == token.FALLTHROUGH {
+						okSw = false
+					}
+				}
+				body := &ast.BlockStmt{List: cl.Body}
+				if cl.List == nil {
+					deflt = body
+					continue
+				}
+				var cond ast.Expr
+				for _, ce := range cl.List {
+					eq := &ast.BinaryExpr{X: x.Tag, Op: token.EQL, Y: ce}
+					t.p.info.Types[eq] = types.TypeAndValue{Type: types.Typ[types.Bool]}
+					if cond == nil {
+						cond = eq
+					} else {
+						or := &ast.BinaryExpr{X: cond, Op: token.LOR, Y: eq}
+						t.p.info.Types[or] = types.TypeAndValue{Type: types.Typ[types.Bool]}
+						cond = or
+					}
+				}
+				is := &ast.IfStmt{Cond: cond, Body: body}
+				if last == nil {
+					chain = is
+				} else {
+					last.Else = is
+				}
+				last = is
+			}
+			if !okSw || chain == nil {
+				t.errf("switch statement outside the subset")
+				continue
+			}
+			if deflt != nil {
+				last.Else = deflt
+			}
+			if r, ok := t.stmts([]ast.Stmt{chain}); ok {
+				return r, true
+			}
 		case *ast.ReturnStmt:
 			if len(x.Results) != 1 {
 				t.errf("return with %d results", len(x.Results))
@@ -647,6 +710,10 @@ func stmtHead(p *pkgInfo, s ast.Stmt) string {
 		return strings.Join(l, ", ") + " " + x.Tok.String() + " " + strings.Join(r, ", ")
 	case *ast.IncDecStmt:
 		return fexprText(x.X) + x.Tok.String()
+	case *ast.SwitchStmt:
+		if x.Tag != nil {
+			return "switch " + fexprText(x.Tag)
+		}
 	}
 	return ""
 }
